@@ -438,7 +438,14 @@ fn run_c20(out: &mut Out, rng: &mut Rng, count: usize) {
   let corpus = crate::d_scan::load_corpus();
   let all = mk_linter(rules_by_codes(&all_codes()), &Words::default());
   let own: &[&str] = &[
-    "let x = 1; function g() { var x; x = 2; return x; } g(); x;",
+    "let total = 1; function g() { var total; total = 2; return total; } g(); f(total);",
+    "let total = 1; function g() { var total; { total = 2; } return total; } g(); f(total);",
+    "let total = 1; function g() { function total() {} total = 2; } g(); f(total);",
+    "let total = 1; function g() { class total {} total = 2; } g(); f(total);",
+    "let count = 0; const fe = function count() { count = 1; }; fe(); f(count);",
+    "let items = []; function g() { for (var items of xs) { items = 1; } } g(); f(items);",
+    "const limit = 1; function g(limit) { limit = 2; return limit; } g(1); f(limit);",
+    "function outer() { let acc = 0; return acc; }\nfunction other() { var acc; acc = 1; acc++; return () => { acc = 2; }; }\nouter(); other();",
     "function outer() { function helper() {} helper(); }\nfunction other() { function helper() {} }\nouter(); other();",
     "const abc = 1;\n{ const abc = 2; f(abc); }\nf(abc);",
     "function f(abc) { return (abc) => abc + 1; }\nf(1);",
@@ -457,6 +464,40 @@ fn run_c20(out: &mut Out, rng: &mut Rng, count: usize) {
     } else {
       let s = &corpus[crng.below(corpus.len())];
       (s.rule.clone(), s.src.clone())
+    };
+    // shadow injection: a same-spelled binding of another kind (var / function / class / parameter), assigned in a
+    // nested scope, is appended for one of the program's own declared names — the situation in which a table keyed on
+    // the spelling confuses two bindings
+    let src = if case_no % 5 >= 2 && crng.chance(1, 2) {
+      let names: Vec<String> = {
+        let mut v = vec![];
+        for w in src.split(|c: char| !(c.is_alphanumeric() || c == '_' || c == '$')) {
+          if w.len() >= 2 && w.chars().next().map_or(false, |c| c.is_ascii_alphabetic()) && !RESERVED.contains(&w) && !is_keywordish(w) && !hook_like(w) {
+            let decl = ["let ", "const ", "var ", "function ", "class "].iter().any(|k| src.contains(&format!("{}{}", k, w)));
+            if decl && !v.contains(&w.to_string()) {
+              v.push(w.to_string());
+            }
+          }
+        }
+        v
+      };
+      if names.is_empty() {
+        src
+      } else {
+        let n = &names[crng.below(names.len())];
+        out.count("shadow-injected");
+        let inj = match crng.below(6) {
+          0 => format!("function shadow0() {{ var {n}; {n} = 2; return {n}; }}"),
+          1 => format!("function shadow1() {{ var {n} = 1; {{ {n} = 2; {n}++; }} return () => {n}; }}"),
+          2 => format!("function shadow2() {{ function {n}() {{}} {n} = 2; return {n}; }}"),
+          3 => format!("function shadow3({n}) {{ {n} = 2; return [{n}]; }}"),
+          4 => format!("{{ class {n} {{}} new {n}(); }}"),
+          _ => format!("const shadow5 = function {n}() {{ return {n}; }};"),
+        };
+        format!("{}\n{}\n", src, inj)
+      }
+    } else {
+      src
     };
     let ext = if src.contains("</") || src.contains("/>") { "tsx" } else { "ts" };
     let spec = spec_for(ext);
